@@ -140,7 +140,21 @@ def main(argv):
     os.makedirs(os.path.join(VERIF, "evidence"), exist_ok=True)
     os.makedirs(os.path.join(VERIF, "work", "replays"), exist_ok=True)
 
-    mod = importlib.import_module(f"props.{pid.lower()}")
+    try:
+        mod = importlib.import_module(f"props.{pid.lower()}")
+    except Exception:  # noqa: BLE001
+        import traceback
+
+        _tb = traceback.format_exc()
+
+        class mod:  # noqa: N801  (stands in for the plugin; running it reports the import failure)
+            LEVEL = "proof"
+            TRUSTED = []
+            ASSUMPTIONS = []
+
+            @staticmethod
+            def run(_ctx):
+                raise RuntimeError("the property plugin could not be imported against the current /repo:\n" + _tb)
     info = build(pid)
     gate = grep_gate()
     known = load_known(pid)
@@ -153,7 +167,17 @@ def main(argv):
         violations.append({"replay": rp, "nofail": True})
     else:
         ctx = {"tier": tier, "seed": seed, "known": known, "replay": replay, "pid": pid}
-        result = mod.run(ctx)
+        try:
+            result = mod.run(ctx)
+        except Exception:  # noqa: BLE001
+            # the correspondence could not be evaluated at all (e.g. the code moved under the harness): the property is
+            # no longer shown to hold, and no failing input was found
+            import traceback
+
+            result = {"failures": [{"kind": "harness", "name": "harness-crash", "signature": None,
+                                    "what": f"the correspondence check corr_{pid} could not be evaluated",
+                                    "traceback": traceback.format_exc()[-3000:]}],
+                      "coverage": {"evaluations": 0, "distinct_nontrivial": 0, "harness_crash": True}}
         cov = result.get("coverage", {})
         for f in result.get("failures", []):
             # f: dict(kind='holds'|'corr', signature, spec/replay payload, detail)
